@@ -6,6 +6,7 @@ backend's own regeneration rule (shim: kill / ENOSPC at point k), followed by
 two further attempts, each compared with a fresh configure."""
 import json
 import os
+import shutil
 
 from engine import TreeBroken, run
 from engine import (Check, tlc, tlc_ok, validate, validate_traces, pmap, BIN,
@@ -305,6 +306,69 @@ def reconfigure_scenario(arg):
         p.close()
 
 
+def firstconf_scenario(arg):
+    """the FIRST configure into a build directory that does not exist yet is
+    killed / fails at every mutation point.  Afterwards the backend runs in
+    whatever was left (if a build file exists, its regeneration rule is the
+    next attempt), then an explicit `bfg9000 regenerate`: a success must leave
+    the files of an uninterrupted configure."""
+    backend, modes = arg
+    name = 'firstconf' + ('/ninja' if backend == 'ninja' else '')
+    p = regen.Proj(PKG, backend=backend)
+    traces = []
+    try:
+        shim = {'BFG9000_VERIF': '1', 'PYTHONPATH': regen.SHIM + (
+            ':' + regen.REPO if regen.REPO != '/repo' else ''),
+            'BFG9000_VERIF_ROOT': p.bld}
+        log = os.path.join(p.root, 'mut.log')
+        rc, out = p.configure(env=dict(shim, BFG9000_VERIF_LOG=log))
+        muts = regen.read_mutlog(log)
+        if rc != 0 or not muts:
+            raise TreeBroken('configure of %s: %s' % (name, out[-300:]))
+        fresh = p.outputs()
+        for k in range(1, len(muts) + 1):
+            for mode in modes:
+                if mode == 'enospc' and muts[k - 1]['side'] != 'pre':
+                    continue
+                shutil.rmtree(p.bld, ignore_errors=True)
+                if os.path.exists(log):
+                    os.remove(log)
+                rc, out = p.configure(env=dict(
+                    shim, BFG9000_VERIF_LOG=log,
+                    BFG9000_VERIF_FAULT='%d:%s' % (k, mode)))
+                seen = regen.read_mutlog(log)
+                events = [{'ev': 'Edit', 'op': 'first-configure', 'path': ''}]
+                events += [{'ev': 'Mut', 'k': m['k'], 'op': m['op'],
+                            'file': m['file'], 'side': m['side']}
+                           for m in seen if m['k'] <= k]
+                events.append({'ev': 'Fault', 'k': k, 'mode': mode})
+                if not os.path.isdir(p.bld):
+                    os.makedirs(p.bld)
+                p.tick()
+                events.append(attempt(p, fresh, p.outputs()))
+                b = p.outputs()
+                rc2, o2 = run(['/venv/bin/bfg9000', 'regenerate', p.bld],
+                              cwd=p.root, env=p.env)
+                now = p.outputs()
+                bf = os.path.basename(p.buildfile)
+                events.append({'ev': 'Attempt', 'exit': rc2,
+                               'fresh': now == fresh,
+                               'diff': regen.diff_class(now, fresh),
+                               'unchanged': now.get(bf) == b.get(bf),
+                               'rewrote': now.get(bf) != b.get(bf),
+                               'must_succeed': False,
+                               'state': regen.file_state(p.buildfile),
+                               'tail': o2[-200:] if rc2 else ''})
+                m = muts[k - 1]
+                traces.append({'scenario': name, 'k': k, 'mode': mode,
+                               'point': '%s(%s):%s' % (m['op'], m['file'],
+                                                       m['side']),
+                               'events': events})
+        return traces
+    finally:
+        p.close()
+
+
 def raise_scenario(arg):
     """the edited script raises: previous build file untouched, visible
     failure; after repairing the script the next attempt is fresh"""
@@ -380,8 +444,10 @@ def main(argv):
         scs[:1] + scs[3:4] if ck.quick else scs) for how in HOWS], jobs=8)
     reconf = pmap(reconfigure_scenario, [('make', modes)] + (
         [] if ck.quick else [('ninja', modes)]), jobs=2)
+    first = pmap(firstconf_scenario, [('make', modes), ('ninja', modes)],
+                 jobs=2)
     runs = [t for tr, _ in results for t in tr] + raises + \
-        [t for tr in reconf for t in tr]
+        [t for tr in reconf for t in tr] + [t for tr in first for t in tr]
     ck.note('mutation_sequences', {sc[0]: ['%s(%s):%s' % m for m in order]
                                    for sc, (_, order) in zip(scs, results)})
     # design-level conformance of the recorded mutation orders
